@@ -177,6 +177,14 @@ func listRoot(root string) diskListing {
 		}
 		rel, _ := filepath.Rel(root, p)
 		rel = filepath.ToSlash(rel)
+		if strings.HasPrefix(fi.Name(), ".mutagen-temporary-") {
+			// internal staging roots and probe files belong to the endpoint and
+			// are named after the per-side session: never an edit target
+			if fi.IsDir() {
+				return filepath.SkipDir
+			}
+			return nil
+		}
 		if strings.HasPrefix(rel, "big") && strings.Count(rel, "/") >= 1 {
 			// contents of bulk directories are not individual edit targets
 			if fi.IsDir() {
@@ -215,6 +223,14 @@ func c21Size(r *rand.Rand) int {
 	default:
 		return 20 + r.Intn(3000)
 	}
+}
+
+// isFifoName: FIFOs are created only under names fifoN and never renamed, so
+// that no staging or supplying operation is ever asked to open one: the local
+// endpoint opens base files without O_NONBLOCK and would block forever on a
+// FIFO (observed; not a local/remote difference, hence outside this property).
+func isFifoName(p string) bool {
+	return strings.HasPrefix(filepath.Base(p), "fifo")
 }
 
 // genOp draws one edit for a root whose current state is l. clock supplies
@@ -289,7 +305,7 @@ func genOp(r *rand.Rand, l diskListing, clock *int64, allowRootChange, allowBulk
 			}
 			p := l.all[r.Intn(len(l.all))]
 			q := join(pickDir(), newName())
-			if exists(q) || strings.HasPrefix(q+"/", p+"/") {
+			if exists(q) || strings.HasPrefix(q+"/", p+"/") || isFifoName(p) {
 				continue
 			}
 			return diskOp{Kind: "rename", Path: p, Path2: q}
@@ -306,8 +322,8 @@ func genOp(r *rand.Rand, l diskListing, clock *int64, allowRootChange, allowBulk
 				continue
 			}
 			return diskOp{Kind: "symlink", Path: p, Target: c21Targets[r.Intn(len(c21Targets))]}
-		case 10: // fifo
-			p := join(pickDir(), newName())
+		case 10: // fifo, under a name no file ever gets on either root (see isFifoName)
+			p := join(pickDir(), fmt.Sprintf("fifo%d", r.Intn(50)))
 			if exists(p) {
 				continue
 			}
@@ -603,25 +619,40 @@ type c21Run struct {
 	clock int64
 	step  int
 	dead  bool
+	jmu   sync.Mutex
+	// dirty[root]: the root's disk was changed (edit or transition) after the
+	// endpoint's last scan of it, so the endpoint's cache may name files that
+	// are gone or different.
+	dirty map[string]bool
 }
 
 func (x *c21Run) log(format string, a ...any) {
 	line := fmt.Sprintf("step %d: ", x.step) + fmt.Sprintf(format, a...)
+	x.jmu.Lock()
 	x.p.Journal = append(x.p.Journal, line)
+	x.jmu.Unlock()
 	if x.p.Debug {
 		fmt.Printf("C21 program %d %s\n", x.p.Index, line)
 	}
 }
 
 func (x *c21Run) violation(rule, op, what string, extra map[string]any) {
+	x.violationSig(map[string]string{"rule": rule, "operation": op}, what, extra)
+}
+
+func (x *c21Run) violationSig(sig map[string]string, what string, extra map[string]any) {
+	op := sig["operation"]
+	x.jmu.Lock()
+	journal := append([]string(nil), x.p.Journal...)
+	x.jmu.Unlock()
 	w := map[string]any{
 		"program": x.p.Index, "program_seed": x.p.Seed, "step": x.step, "operation": op,
-		"configuration": cfgJSON(x.p.cfg), "compression": x.p.Alg, "journal": x.p.Journal,
+		"configuration": cfgJSON(x.p.cfg), "compression": x.p.Alg, "journal": journal,
 	}
 	for k, v := range extra {
 		w[k] = v
 	}
-	x.r.Violation(map[string]string{"rule": rule, "operation": op}, fmt.Sprintf("program %d step %d (%s): %s", x.p.Index, x.step, op, what), w)
+	x.r.Violation(sig, fmt.Sprintf("program %d step %d (%s): %s", x.p.Index, x.step, op, what), w)
 	x.dead = true
 }
 
@@ -638,6 +669,9 @@ func (x *c21Run) sides() [2]*c21Side { return [2]*c21Side{x.L, x.R} }
 
 func (x *c21Run) edit(which string, n int, allowRoot, allowBulk bool) stepOutcome {
 	kinds := ""
+	if n > 0 {
+		x.dirty[which] = true
+	}
 	for i := 0; i < n; i++ {
 		l := listRoot(x.L.root(which))
 		op := genOp(x.rng, l, &x.clock, allowRoot, allowBulk)
@@ -676,6 +710,7 @@ func (x *c21Run) edit(which string, n int, allowRoot, allowBulk bool) stepOutcom
 func (x *c21Run) scan(which string, full bool) stepOutcome {
 	op := fmt.Sprintf("Scan(%s,full=%v)", which, full)
 	x.log("%s", op)
+	x.dirty[which] = false
 	var snaps [2]*core.Snapshot
 	var errs [2]error
 	var again [2]bool
@@ -814,6 +849,30 @@ func (x *c21Run) stageAndSupply(src, dst string) stepOutcome {
 			req = append(req, f)
 		}
 	}
+	// The local endpoint satisfies a request from its own root through a
+	// digest -> path map built from its cache by walking a Go map: when several
+	// cached files share a requested digest, WHICH one it opens is not
+	// determined, and if the disk changed since the scan one candidate may be
+	// gone while another is still there. The outcome is then not a function of
+	// the inputs on either side, so that situation is avoided: rescan first.
+	if x.dirty[dst] {
+		holders := map[string]int{}
+		var dfiles []fileRef
+		collectFiles("", ds.Content, &dfiles)
+		for _, f := range dfiles {
+			holders[string(f.digest)]++
+		}
+		for _, f := range req {
+			if holders[string(f.digest)] > 1 {
+				x.r.Count("stages_preceded_by_rescan_for_determinism", 1)
+				if o := x.scan(dst, true); o.fatal || x.dead || x.snap[dst] == nil {
+					return stepOutcome{kind: "stage", class: "skipped", fatal: o.fatal}
+				}
+				break
+			}
+		}
+	}
+	readOnly := dst == "a" && (x.p.cfg.SynchronizationMode == core.SynchronizationMode_SynchronizationModeOneWayReplica || x.p.cfg.SynchronizationMode == core.SynchronizationMode_SynchronizationModeOneWaySafe)
 	op := fmt.Sprintf("Stage(%s<-%s,%d paths)", dst, src, len(req))
 	x.log("%s", op)
 
@@ -835,7 +894,11 @@ func (x *c21Run) stageAndSupply(src, dst string) stepOutcome {
 	}
 	x.r.Count("stages", 1)
 	if (errs[0] == nil) != (errs[1] == nil) {
-		x.violation("error-mismatch", "Stage", fmt.Sprintf("local error %s, remote error %s", errText(errs[0]), errText(errs[1])), map[string]any{"requested": reqPaths[0]})
+		sig := map[string]string{"rule": "error-mismatch", "operation": "Stage"}
+		if len(req) == 0 && readOnly {
+			sig["case"] = "empty-request-on-read-only-endpoint"
+		}
+		x.violationSig(sig, fmt.Sprintf("local error %s, remote error %s", errText(errs[0]), errText(errs[1])), map[string]any{"requested": reqPaths[0]})
 		return stepOutcome{kind: "stage", fatal: true}
 	}
 	if errs[0] != nil {
@@ -1065,6 +1128,7 @@ func (x *c21Run) transition(src, dst string) stepOutcome {
 		results[i], rawProblems[i], missing[i], errs[i] = res, probs, miss, err
 		problems[i] = normProblems(probs, s)
 	}
+	x.dirty[dst] = true
 	x.r.Count("transitions", 1)
 	x.r.Count("transition_changes", int64(len(valid)))
 	if (errs[0] == nil) != (errs[1] == nil) {
@@ -1270,12 +1334,48 @@ func (x *c21Run) run() {
 			record(x.stageAndSupply("a", "b"))
 		}
 	}
-	if !x.dead && oneWay && x.rng.Intn(2) == 0 {
-		// staging on the read-only alpha of a one-way session: error on both
+	if !x.dead && oneWay {
+		// staging on the read-only alpha of a one-way session: first a real
+		// request (the error ends the remote server, so nothing that needs the
+		// server may follow), then an empty one (answered by the client alone)
 		x.step++
 		x.log("Stage on read-only alpha")
-		record(x.stageAndSupply("b", "a"))
+		record(x.stageRaw("a", []fileRef{{"some/file", contentFor(1, 20)}}))
+		if !x.dead {
+			record(x.stageRaw("a", nil))
+		}
 	}
+}
+
+// stageRaw calls Stage with a literal request and compares only error/no
+// error and the nil-ness of everything else (used for read-only endpoints).
+func (x *c21Run) stageRaw(dst string, req []fileRef) stepOutcome {
+	x.log("Stage(%s, literal request of %d paths)", dst, len(req))
+	var errs [2]error
+	var got [2]bool
+	for i, s := range x.sides() {
+		paths := make([]string, len(req))
+		digests := make([][]byte, len(req))
+		for j, f := range req {
+			paths[j], digests[j] = f.path, f.digest
+		}
+		p, sg, rc, err := s.ep[dst].Stage(paths, digests)
+		errs[i] = err
+		got[i] = len(p) > 0 || len(sg) > 0 || rc != nil
+	}
+	x.r.Count("stages", 1)
+	if (errs[0] == nil) != (errs[1] == nil) || got[0] != got[1] {
+		sig := map[string]string{"rule": "error-mismatch", "operation": "Stage"}
+		if len(req) == 0 {
+			sig["case"] = "empty-request-on-read-only-endpoint"
+		}
+		x.violationSig(sig, fmt.Sprintf("Stage of %d paths on the read-only alpha endpoint: local error %s, remote error %s", len(req), errText(errs[0]), errText(errs[1])), nil)
+		return stepOutcome{kind: "stage", fatal: true}
+	}
+	if errs[0] != nil {
+		x.r.Count("stages_with_error_on_both", 1)
+	}
+	return stepOutcome{kind: "stage", class: fmt.Sprintf("read-only,%d,err=%v", len(req), errs[0] != nil)}
 }
 
 // heartbeat measures scheduler health for the hang watchdog.
@@ -1306,7 +1406,7 @@ func startHeartbeat() *heartbeat {
 }
 
 func runC21Program(r *vk.Run, p *c21Program, hb *heartbeat) {
-	x := &c21Run{r: r, p: p, rng: rand.New(rand.NewSource(p.Seed)), snap: map[string]*core.Snapshot{}, clock: 1_600_000_000 + int64(p.Index)*100_000}
+	x := &c21Run{r: r, p: p, rng: rand.New(rand.NewSource(p.Seed)), snap: map[string]*core.Snapshot{}, dirty: map[string]bool{}, clock: 1_600_000_000 + int64(p.Index)*100_000}
 	fmt.Printf("C21 program %d seed=%d steps=%d alg=%s cfg=%s\n", p.Index, p.Seed, p.Steps, p.Alg, cfgJSON(p.cfg))
 	done := make(chan struct{})
 	go func() {
